@@ -56,6 +56,27 @@ def common_scenario(rnd, sid):
         s["links"].append({"name": nm, "type": "TCV", "a": a, "b": b, "diam": rnd.choice([0.2, 0.3]), "minor": 0.0,
                            "setting": netgen.rgrid(rnd, 5, 50, 5), "init": 2})
         s["sctl"] = [{"thr": s["H"] * rnd.randint(1, 3), "link": nm, "val": netgen.rgrid(rnd, 100, 900, 50)}]
+    if rnd.random() < 0.5:
+        # a reservoir whose head follows a pattern (shifted, like every pattern, by pattern_start)
+        s["patterns"]["HP"] = [rnd.choice([0.9, 0.95, 1.0, 1.05, 1.1]) for _ in range(rnd.randint(3, 5))]
+        rnd.choice([n for n in s["nodes"] if n["type"] == "R" and n["name"] != "RP"])["pat"] = "HP"
+        if rnd.random() < 0.7:
+            s["PatStart"] = s["Pat"] * rnd.randint(1, 3)
+    if rnd.random() < 0.4:
+        # twin mains of opposite orientation to a dead-end junction; the forward one is closed for part of the run, so the
+        # junction is supplied only through the main drawn the other way round
+        import c02
+        js = [n["name"] for n in s["nodes"] if n["type"] == "J"]
+        h = rnd.choice(js)
+        s["nodes"].append(c02.junction("JT", netgen.rgrid(rnd, 0, 10, 2.5), [{"base": netgen.rgrid(rnd, 0.002, 0.006, 0.001), "pat": ""}]))
+        for nm, a, b in (("M1", h, "JT"), ("M2", "JT", h)):
+            s["links"].append({"name": nm, "type": "pipe", "a": a, "b": b, "len": netgen.rgrid(rnd, 100, 400, 50), "diam": 0.3,
+                               "rough": 100.0, "minor": 0.0, "cv": False, "init": 1})
+        k = next(i + 1 for i, l in enumerate(s["links"]) if l["name"] == "M1")
+        t0 = s["H"] * rnd.randint(0, 2)
+        s["ctl"].append({"kind": "sim", "thr": t0, "rep": 0, "link": k, "val": 0, "prio": 3})
+        if rnd.random() < 0.5:
+            s["ctl"].append({"kind": "sim", "thr": t0 + 2 * s["H"], "rep": 0, "link": k, "val": 1, "prio": 3})
     return s
 
 
